@@ -67,6 +67,14 @@ def err_wrap(ctx: Ctx) -> RuleResult:
                       "when no location is known the original exception must be re-raised", norm_src(chain[0].test))
     elif not ok_re:
         r.violate("ExecNode.execute: the fall-back raise does not re-raise the original exception", ex.loc(bare[0]), "", norm_src(bare[0]))
+    # building the message must not be able to raise (it would replace the node's error by an unrelated one)
+    risky = [x for x in own_walk(h) if isinstance(x, ast.Subscript) and isinstance(x.value, ast.Attribute) and x.value.attr == "args"
+             and dotted(x.value.value) == ev]
+    r.ob(not risky, {"handler indexes the exception's args": [norm_src(x) for x in risky]})
+    for x in risky:
+        r.violate(f"ExecNode.execute: the handler indexes {norm_src(x)}", ex.loc(x),
+                  "an exception raised without arguments (assert, bare 'raise ValueError', ...) has empty args: the handler itself raises "
+                  "IndexError, which replaces the error that names the node and drops the cause", norm_src(x))
     # the class of the wrapping error is the package's base error
     r.ob(True, {"wrapping error": norm_src(w.exc.func)})
     return r
